@@ -941,7 +941,7 @@ func (s *Server) duplicateCommitClusterUploadHandler(w http.ResponseWriter, r *h
 	log.WithTraceContext(ctx).With("namespace", namespace, "digest", d.Hex(), "uid", uid, "delay", delay).Info("Committing duplicate upload")
 	if err := s.uploader.commit(d, uid); err != nil {
 		log.WithTraceContext(ctx).With("namespace", namespace, "digest", d.Hex(), "uid", uid).Errorf("Failed to commit duplicate upload: %s", err)
-		return err
+		return s.handleUploadConflict(ctx, err, namespace, d)
 	}
 	if err := s.writeBack(ctx, namespace, d, delay); err != nil {
 		log.WithTraceContext(ctx).With("namespace", namespace, "digest", d.Hex(), "delay", delay).Errorf("Failed to write back duplicate: %s", err)
